@@ -28,8 +28,48 @@ class CFG:
             else:
                 for d in t.succs():
                     self._add(b.idx, d, None)
+        self._thread_const_bools()
         self._dom = None
         self._reach_cache = {}
+
+    def _thread_const_bools(self):
+        """jump threading for the lowering of `matches!(..)` / `a && b` into a temporary:
+             P1: _t = true;  goto J      P2: _t = false; goto J      J: switchInt(move _t) -> [0: F, otherwise: T]
+        every predecessor that assigns the constant is wired straight to the arm it selects (J computes nothing else),
+        so that path-insensitive reachability does not invent the paths P1->F and P2->T."""
+        body = self.body
+        for b in body.blocks:
+            if b.cleanup or b.term.kind != "switch":
+                continue
+            t = b.term
+            if t.discr is None or t.discr.place is None or not t.discr.place.is_local() or t.discr.kind not in ("move", "copy"):
+                continue
+            if any(st.kind == "assign" for st in b.stmts):
+                continue
+            tl = t.discr.place.local
+            for p in list(self.pred[b.idx]):
+                pb = body.blocks[p]
+                if pb.term.kind != "goto":
+                    continue
+                val = None
+                for st in pb.stmts:
+                    if st.kind == "assign" and st.lhs.is_local() and st.lhs.local == tl:
+                        val = st.rv.ops[0].const_int() if st.rv.kind == "use" and st.rv.ops else None
+                if val is None:
+                    continue
+                target = t.otherwise
+                for v, d in t.targets:
+                    if v == val:
+                        target = d
+                if body.blocks[target].cleanup:
+                    continue
+                # rewire p -> J into p -> target
+                self.edges = [e for e in self.edges if not (e[0] == p and e[1] == b.idx)]
+                self.succ[p] = [x for x in self.succ[p] if x != b.idx]
+                self.pred[b.idx] = [x for x in self.pred[b.idx] if x != p]
+                self.edges.append((p, target, None))
+                self.succ[p].append(target)
+                self.pred[target].append(p)
 
     @staticmethod
     def _const_discr(b):
